@@ -34,7 +34,7 @@ func tonumber(t *rt.Thread, c *rt.GoCont) (rt.Cont, error) {
 	if !ok {
 		return nil, errors.New("#1 must be a string")
 	}
-	digits := bytes.TrimSpace([]byte(s))
+	digits := bytes.Trim([]byte(s), " \f\n\r\t\v")
 	if len(digits) == 0 {
 		t.Push1(next, rt.NilValue)
 		return next, nil
